@@ -585,4 +585,183 @@ theorem kwClause_holds (sch : Schema) (kw : Kw) (e : Env) :
     obtain ⟨c, v, hb, rfl⟩ := (mem_kwData sch kw cond).mp hc
     exact (mkCond_true c v e.row).mpr (h c v hb)
 
+
+theorem mem_source (db : Db) (c : Expr) (r : Row) :
+    r ∈ source db c ↔ r ∈ db.rows ∧
+      (if c.usesOth then ∃ g ∈ db.oth, holds c ⟨g, r⟩ = true else holds c ⟨none, r⟩ = true) := by
+  unfold source
+  split
+  · simp only [List.mem_flatMap, List.mem_map, List.mem_filter]
+    constructor
+    · rintro ⟨a, ha, g, ⟨hg, hh⟩, rfl⟩; exact ⟨ha, g, hg, hh⟩
+    · rintro ⟨ha, g, hg, hh⟩; exact ⟨r, ha, g, ⟨hg, hh⟩, rfl⟩
+  · simp [List.mem_filter]
+
+theorem source_subset (db : Db) (c : Expr) (r : Row) (h : r ∈ source db c) : r ∈ db.rows :=
+  ((mem_source db c r).mp h).1
+
+/-- without a join the source is the table filtered (order and multiplicity kept) -/
+theorem source_eq_filter (db : Db) (c : Expr) (h : c.usesOth = false) :
+    source db c = db.rows.filter fun r => holds c ⟨none, r⟩ := by
+  simp [source, h]
+
+theorem columnClause_some (sch : Schema) (kw : Kw) (cl : Option Expr) (h : columnClause sch kw = some cl) :
+    (∀ kv ∈ kw, consumed kw sch.cols kv.1 = true) ∧
+    cl = (if (kwData sch kw).isEmpty then none else some (.kw (kwData sch kw))) := by
+  unfold columnClause at h
+  split at h
+  · rename_i hall
+    simp only [Option.some.injEq] at h
+    refine ⟨?_, h.symm⟩
+    intro kv hkv
+    have := List.all_eq_true.mp hall kv hkv
+    simpa using this
+  · cases h
+
+theorem columnClause_none (sch : Schema) (kw : Kw) :
+    columnClause sch kw = none ↔ ∃ kv ∈ kw, consumed kw sch.cols kv.1 = false := by
+  unfold columnClause
+  split
+  · rename_i hall
+    simp only [reduceCtorEq, false_iff, not_exists, not_and]
+    intro kv hkv
+    have := List.all_eq_true.mp hall kv hkv
+    simp at this ⊢
+    simpa using this
+  · rename_i hall
+    simp only [true_iff]
+    have : ¬ ∀ kv ∈ kw, consumed kw sch.cols kv.1 = true := by
+      intro h; apply hall; apply List.all_eq_true.mpr; intro kv hkv; simpa using h kv hkv
+    refine Classical.byContradiction fun hc => this ?_
+    intro kv hkv
+    cases hh : consumed kw sch.cols kv.1 with
+    | true => rfl
+    | false => exact absurd ⟨kv, hkv, hh⟩ hc
+
+theorem clause_holds (sch : Schema) (kw : Kw) (cl : Option Expr) (h : columnClause sch kw = some cl) (e : Env) :
+    holds (cl.getD .tt) e = true ↔ ∀ c v, Bound sch kw c v → e.row.get c = v.toVal := by
+  have h2 := (columnClause_some sch kw cl h).2
+  by_cases hd : (kwData sch kw).isEmpty = true
+  · rw [h2, if_pos hd]
+    simp only [Option.getD_none, holds, Expr.eval, beq_self_eq_true, true_iff]
+    intro c v hb
+    have := (mem_kwData sch kw (mkCond c v)).mpr ⟨c, v, hb, rfl⟩
+    rw [List.isEmpty_iff.mp hd] at this
+    cases this
+  · rw [h2, if_neg hd]
+    exact kwClause_holds sch kw e
+
+theorem selectBy_usesOth (sch : Schema) (kw : Kw) (s : Sel) (h : selectBy sch kw = some s) : s.clause.usesOth = false := by
+  unfold selectBy at h
+  cases hc : columnClause sch kw with
+  | none => rw [hc] at h; cases h
+  | some cl =>
+    rw [hc] at h
+    simp only [Option.map_some, Option.some.injEq] at h
+    subst h
+    have := (columnClause_some sch kw cl hc).2
+    subst this
+    simp only [Sel.new]
+    split <;> rfl
+
+
+/-! ### specification side of the chainable methods -/
+def USel.apply (u : USel) : SelOp → USel
+  | .orderBy o => { u with order := o }
+  | .rev => { u with rev := !u.rev }
+  | .dist => { u with dist := true }
+  | .filter none => u
+  | .filter (some c) => { u with clause := .and u.clause c }
+
+theorem apply_ofU (sch : Schema) (u : USel) (op : SelOp) : (Sel.ofU sch u).apply sch op = Sel.ofU sch (u.apply op) := by
+  cases op with
+  | filter c => cases c <;> rfl
+  | _ => rfl
+
+theorem foldl_apply_ofU (sch : Schema) (ops : List SelOp) (u : USel) :
+    ops.foldl (Sel.apply sch) (Sel.ofU sch u) = Sel.ofU sch (ops.foldl USel.apply u) := by
+  induction ops generalizing u with
+  | nil => rfl
+  | cons op ops ih => simp only [List.foldl_cons, apply_ofU, ih]
+
+/-- what `cls.select(clause, orderBy=…, reversed=…, distinct=…)` asks for -/
+def USel.new (sch : Schema) (clause : Option Expr) (orderBy : Option OrderBy) (rev dist : Bool) : USel :=
+  ⟨clause.getD .tt, orderBy.getD sch.defaultOrder, rev, dist⟩
+
+theorem new_ofU (sch : Schema) (clause : Option Expr) (orderBy : Option OrderBy) (rev dist : Bool) :
+    Sel.new sch clause orderBy rev dist = Sel.ofU sch (USel.new sch clause orderBy rev dist) := rfl
+
+/-- every evaluated plan returns a permutation of the filtered (distinct) rows -/
+theorem evalRows_perm (sch : Schema) (db : Db) (p : Plan) (out : List Row) (h : evalRows sch db p = some out) :
+    out.Perm (distinctIf p.distinct (source db p.where_)) := by
+  unfold evalRows at h
+  simp only at h
+  split at h
+  · simp only [Option.some.injEq] at h; subst h; exact List.Perm.refl _
+  · cases h
+  · cases hk : resolveKeys sch p.where_.usesOth _ with
+    | none => rw [hk] at h; cases h
+    | some keys =>
+      rw [hk] at h
+      simp only [Option.map_some, Option.some.injEq] at h
+      subst h
+      exact sortBy_perm _ _
+
+/-! ### specification of the aggregates over an in-memory list of rows -/
+def foldSpec (m : AggMethod) (dist : Bool) (rows : List Row) (c : ColRef) : AggVal :=
+  let vals := distinctIf dist (rows.filterMap (·.get c))
+  match m with
+  | .sum => .int (if vals.isEmpty then none else some (sumL vals))
+  | .min => .int (minL vals)
+  | .max => .int (maxL vals)
+  | .avg => .ratio (if vals.isEmpty then none else some (sumL vals, vals.length))
+
+theorem foldSpec_eq (m : AggMethod) (dist : Bool) (rows : List Row) (c : ColRef) :
+    foldSpec m dist rows c = aggOf m.fn (distinctIf dist (rows.filterMap (·.get c))) := by
+  cases m <;> rfl
+
+/-- the id is a key of the table -/
+def KeyIds (db : Db) : Prop := ∀ r ∈ db.rows, ∀ r' ∈ db.rows, r.id = r'.id → r = r'
+
+theorem agg_vals_perm (dist : Bool) (c : ColRef) (src out : List Row) (h : out.Perm (distinctIf dist src)) :
+    (distinctIf dist (out.filterMap (·.get c))).Perm (distinctIf dist (src.filterMap (·.get c))) := by
+  cases dist with
+  | false => exact h.filterMap _
+  | true =>
+    simp only [distinctIf, if_true] at h ⊢
+    apply dedup_perm_of_mem_iff
+    intro x
+    simp only [List.mem_filterMap]
+    constructor
+    · rintro ⟨r, hr, e⟩; exact ⟨r, (mem_dedup r src).mp (h.mem_iff.mp hr), e⟩
+    · rintro ⟨r, hr, e⟩; exact ⟨r, h.mem_iff.mpr ((mem_dedup r src).mpr hr), e⟩
+
+theorem evalAgg_aggPlan (sch : Schema) (db : Db) (s : Sel) (m : AggMethod) (t : Term) (c : ColRef)
+    (ht : sch.resolveTerm s.clause.usesOth t = some c) :
+    evalAgg sch db (aggPlan s m t)
+      = some (aggOf m.fn (distinctIf s.distinct ((source db s.clause).filterMap (·.get c)))) := by
+  simp only [evalAgg, aggPlan, accumulatePlan, queryForSelect, ht, Option.map_some, distinctIf,
+    Extracted.aggDistinctWhenDistinct, Extracted.aggDistinctWhenPlain]
+  cases s.distinct <;> rfl
+
+theorem evalAgg_countPlan (sch : Schema) (db : Db) (s : Sel) :
+    evalAgg sch db (countPlan s)
+      = some (.int (some (if s.distinct then (dedup ((source db s.clause).map (·.id))).length
+                          else (source db s.clause).length))) := by
+  simp only [evalAgg, countPlan, accumulatePlan, queryForSelect, Extracted.countWhenDistinct, Extracted.countWhenPlain]
+  cases s.distinct <;> rfl
+
+theorem holds_eqOrNull (c : ColRef) (v : Val) (g : Val) (r : Row) :
+    holds (eqOrNull c v) ⟨g, r⟩ = true ↔ r.get c = v := by
+  cases v with
+  | none => simp [eqOrNull, holds, Expr.eval, Operand.eval]
+  | some x =>
+    simp only [eqOrNull, holds, Expr.eval, Operand.eval, beq_iff_eq]
+    cases r.get c with
+    | none => simp [cmp3]
+    | some y => simp [cmp3, CmpOp.holds]
+
+theorem eqOrNull_usesOth (c : ColRef) (v : Val) : (eqOrNull c v).usesOth = false := by
+  cases v <;> rfl
+
 end SqlObjVerif.Query
